@@ -176,6 +176,13 @@ def r2_ready_wake_agreement(ctx):
         if any(x[0] == 'field' and x[2] == 'time' for x in walk(r)) and not any(x[0] == 'field' and x[2] == 'time' for x in walk(l)):
             l, r, op = r, l, SWAP[op]
         is_time = l[0] == 'field' and l[2] == 'time'
+        if not is_time:
+            # slots kept in a map ordered by deadline (`BTreeMap<SimTime, slot>`, filled by `entry(time)` in TimerQueue::add): the
+            # predicate's parameter is a (deadline, slot) entry and it tests the key
+            tq = P.adts.get(TQ) or {}
+            keyed = any(fd['ty'].replace('std::cell::RefCell<', '').startswith('std::collections::BTreeMap<des::time::SimTime,') for v in tq.get('variants', []) for fd in v['fields'])
+            lp = peel_c(l)
+            is_time = keyed and lp[0] == 'field' and lp[2] == '0' and peel_c(lp[1])[0] == 'arg' and peel_c(lp[1])[1] in (2, '_2')
         ctx.check(is_time and op == 'le', 'bump-table:%s' % g.key.split('::')[-1], 'TimerQueue::bump takes a slot iff slot.time <= now (same predicate as Sleep::poll)', g.where(),
                   '%s %s %s' % (show_c(l), op, show_c(r)))
     # cur is SimTime::now()
@@ -213,14 +220,23 @@ def r3_wakeup_scheduling(ctx, rule='C05.R3'):
         ok = len(writes) == 1 and len(adds) == 1
         detail = {'writes': len(writes), 'scheduled': len(adds)}
         if ok:
-            v = canon(peel(writes[0][4]))
+            v0 = peel(writes[0][4])
+            if v0[0] == 'agg' and str(v0[1]).endswith('Option::Some') and v0[2]:
+                v0 = peel(v0[2][0])     # the recorded wake-up kept as Option<SimTime> (None instead of the MAX sentinel)
+            v = canon(v0)
             t = canon(peel(adds[0][2][2]))
             from_next = any(x[0] == 'call' and x[1] == D + 'Driver::next' for x in walk(v))
             ok = v == t and from_next
             detail.update({'stored': show_c(v), 'scheduled_at': show_c(t)})
             atoms = [a for _, a in path_atoms(f, path, decs)]
             atoms = atoms + filter_facts(f, atoms)
-            guard = any(a[0] == 'cmp' and a[1] == 'lt' and a[2] == v and a[3][0] == 'field' and a[3][2] == 'next_wakeup' for a in atoms)
+            def recorded(x):
+                # the recorded wake-up time: the field, or `field.unwrap_or(SimTime::MAX)` when it is kept as an Option
+                if x[0] == 'field' and x[2] == 'next_wakeup':
+                    return True
+                return x[0] == 'call' and x[1] == 'std::option::Option::unwrap_or' and len(x[2]) == 2 and peel_c(x[2][0])[0] == 'field' and peel_c(x[2][0])[2] == 'next_wakeup' \
+                    and 'MAX' in show_c(x[2][1])
+            guard = any(a[0] == 'cmp' and a[1] == 'lt' and a[2] == v and recorded(a[3]) for a in atoms)
             if not guard:
                 # the comparison may sit in the driver method that computes the deadline: it returns `next().filter(|t| *t < self.next_wakeup)`
                 for x in walk(v):
@@ -248,12 +264,55 @@ def r3_wakeup_scheduling(ctx, rule='C05.R3'):
         ctx.check(len(put) == 1, 'driver-put-back', 'deactivate stores a driver back into the module on every path', f.where_path(path), len(put))
 
 
+LOSSLESS = ('into_iter', 'iter', 'map', 'flat_map', 'flatten', 'collect', 'into_inner', 'by_ref', 'deref', 'deref_mut', 'into_values', 'drain', 'take')
+
+
+def _lossless_chain(P, t, src_pred, depth=0):
+    """the iterator expression `t` passes on every element of its source (no filter / take(n) / skip / early exit): only adaptors from
+    LOSSLESS, mapping callbacks that are themselves lossless chains or plain projections; src_pred(tree) recognises the source"""
+    t = peel(t)
+    if src_pred(t):
+        return True
+    if depth > 6 or t[0] != 'call' or not t[2]:
+        return False
+    m = t[1].split('::')[-1]
+    if m not in LOSSLESS or (m == 'take' and 'mem::take' not in t[1] and 'Option' not in t[1] and 'Cell' not in t[1]):
+        return False
+    if m == 'drain' and not (len(t[2]) == 2 and 'RangeFull' in show(t[2][1])):
+        return False
+    if not _lossless_chain(P, t[2][0], src_pred, depth + 1):
+        return False
+    if m == 'flat_map' and len(t[2]) == 2:
+        cb = peel(t[2][1])
+        g = P.fns.get(cb[1]) if cb[0] == 'fnitem' else (P.fns.get(cb[1][len('closure:'):]) if cb[0] == 'agg' and str(cb[1]).startswith('closure:') else None)
+        if g is None:
+            return False
+        arg_src = lambda x: peel_c(x)[0] in ('arg', 'field') and any(y[0] == 'arg' for y in walk(x))
+        return all(_lossless_chain(P, r, arg_src, depth + 1) for _, r in ret_trees(g))
+    return True
+
+
+def _bump_yields_all_wakers(ctx, P):
+    g = P.fns.get(D + 'Driver::bump')
+    if g is None:
+        return False
+    ctx.touch(g)
+    rts = [t for _, t in ret_trees(g)]
+    is_src = lambda x: x[0] == 'call' and x[1] == TQ + '::bump'
+    return bool(rts) and all(_lossless_chain(P, t, is_src) for t in rts)
+
+
 def activation_wake_order(ctx, f, prefix=''):
     """activate: bump -> wake every bumped slot -> install the driver (shared with C06.R3)"""
     P = ctx.P
     bump = f.calls_to(D + 'Driver::bump') or f.calls_to(TQ + '::bump')   # the delegate Driver::bump may have been removed
     sets = f.calls_to(D + 'Driver::set')
     wakes = per_item_calls(P, f, TS + '::wake_all')
+    if not wakes:
+        # representation change: bump hands out the due wakers themselves; activate wakes each of them
+        wk = per_item_calls(P, f, 'std::task::Waker::wake')
+        if wk and _bump_yields_all_wakers(ctx, P):
+            wakes = wk
     if not (ctx.floor('Driver::bump in activate', len(bump), 1) and ctx.floor('Driver::set in activate', len(sets), 1) and ctx.floor('wake_all in activate', len(wakes), 1)):
         return None
     b0, s0 = bump[0], sets[0]
@@ -282,9 +341,10 @@ def r4_wake_before_callback(ctx):
     if ctx.floor('next_wakeup clear in activate', len(wr), 1):
         for (b, i, st) in wr:
             atoms = [a for _, a in f.guard_atoms(b)]
-            g = any(a[0] == 'cmp' and a[1] == 'le' and a[2][0] == 'field' and a[2][2] == 'next_wakeup' and any(x[0] == 'call' and x[1] == NOW for x in walk(a[3])) for a in atoms)
+            g = any(a[0] == 'cmp' and a[1] == 'le' and any(x[0] == 'field' and x[2] == 'next_wakeup' for x in walk(a[2])) and any(x[0] == 'call' and x[1] == NOW for x in walk(a[3])) for a in atoms)
             v = f.expr_rvalue(st['r'], b, i)
-            ctx.check(g and 'MAX' in show(v), 'clear-reached-wakeup', 'a reached next_wakeup (<= now) is cleared to MAX so that later timers are scheduled again', f.where(b), [show_atom(a) for a in atoms])
+            cleared = 'MAX' in show(v) or (peel(v)[0] == 'agg' and str(peel(v)[1]).endswith('Option::None'))
+            ctx.check(g and cleared, 'clear-reached-wakeup', 'a reached next_wakeup (<= now) is cleared to MAX so that later timers are scheduled again', f.where(b), [show_atom(a) for a in atoms])
             ctx.check(sets[0].b in f.reach_from(b) and b not in f.reach_from(sets[0].b), 'clear-before-set', 'the clear happens before the driver is installed', f.where(b))
 
 
@@ -305,7 +365,23 @@ def r5_registration(ctx, rule='C05.R5'):
         ctx.check(any(x[0] == 'field' and x[2] == 'deadline' for x in walk(t_time)) or 'deadline' in show(t_time), 'register-at-deadline',
                   'the timer entry is registered at the sleep\'s deadline', s.where(), show(t_time))
     wc = fp.calls_to(D + 'Driver::with_current')
-    if ctx.floor('Driver::with_current in Sleep::poll', len(wc), 1):
+    lazy = None
+    if not wc:
+        # `me.handle.get_or_insert_with(|| <register>)`: the closure runs iff the handle is None, and its result is stored in the handle
+        for c in fp.calls():
+            if c.name == 'std::option::Option::get_or_insert_with' and len(c.args) == 2 and receiver_field(fp.expr_operand(c.args[0], c.b, 'T')) == 'handle':
+                cl = peel(fp.expr_operand(c.args[1], c.b, 'T'))
+                g = P.fns.get(cl[1][len('closure:'):]) if cl[0] == 'agg' and str(cl[1]).startswith('closure:') else None
+                if g is not None and g.calls_to(D + 'Driver::with_current') and all(
+                        any(x[0] == 'call' and x[1] == D + 'Driver::with_current' for x in walk(t)) for _, t in ret_trees(g)):
+                    lazy = c
+    if lazy is not None:
+        atoms = [a for _, a in fp.guard_atoms(lazy.b)]
+        pend = any(a[0] == 'cmp' and a[1] == 'gt' for a in atoms)
+        ctx.check(pend, 'register-iff-unscheduled', 'a pending sleep registers iff it holds no handle yet (get_or_insert_with on the handle, reached only while pending)',
+                  lazy.where(), [show_atom(a) for a in atoms])
+        ctx.ok('the registration handle is stored in the sleep (result of get_or_insert_with)', lazy.where())
+    elif ctx.floor('Driver::with_current in Sleep::poll', len(wc), 1):
         s = wc[0]
         atoms = [a for _, a in fp.guard_atoms(s.b)]
         unsched = any((option_state(a) or ('', None))[0] == 'none' and any(x[0] == 'field' and x[2] == 'handle' for x in walk(option_state(a)[1])) for a in atoms)
